@@ -345,6 +345,20 @@ func ruleRef8(c *Ctx) []*Ob {
 				if !shared {
 					continue
 				}
+				// swap-out: the function overwrites the very field it took the object from, so the field's own
+				// reference travels with the returned value (REF-2's "returned to the caller")
+				swapped := false
+				if fv, base := loadedField(og); fv != nil {
+					for _, a := range fieldAccesses(f, func(v *types.Var) bool { return v == fv }) {
+						if a.Kind == "store" && canonKey(a.Base) == canonKey(base) {
+							swapped = true
+						}
+					}
+				}
+				if swapped {
+					o.trivial(fn, "returned handle "+accessPath(og)+" is acquired", c.instrPos(r), "swap-out: the field is overwritten in the same function, its reference moves to the caller")
+					continue
+				}
 				acquired := mustPrecede(f, r, func(j ssa.Instruction) bool {
 					call, isCall := j.(*ssa.Call)
 					if !isCall {
